@@ -75,6 +75,9 @@ func ShowErr(err error) string {
 	if err == fp.ErrTryNotFailed {
 		return "ErrTryNotFailed"
 	}
+	if err == fp.ErrFutureNotFailed {
+		return "ErrFutureNotFailed"
+	}
 	if c, ok := err.(CodeErr); ok {
 		return c.Error()
 	}
